@@ -4,8 +4,6 @@ import CoupeModel.Proofs.Par
 import CoupeModel.Proofs.Rcb
 import CoupeModel.Props.C03
 import CoupeModel.Props.C06
-import CoupeModel.Props.C09
-import CoupeModel.Props.C11
 
 /-!
 # Schedule independence of whole algorithms (C06, second layer)
@@ -110,6 +108,8 @@ def recurseT (withinTol : Int → Int → Bool) (cfg : Cfg) (trees : Nat → Nat
 structure RcbSched where
   /-- `weights.par_iter().cloned().sum()` -/
   sumTree : SplitTree
+  /-- coordinate ↦ split tree of `BoundingBox::from_points`' `fold_with(..).reduce_with(..)` -/
+  bbox : Nat → SplitTree
   /-- bisection node, iteration of its cut search ↦ split tree of the fold -/
   split : Nat → Nat → SplitTree
   /-- the order in which the leaves' `part.store(iter_id)` take effect
@@ -117,10 +117,10 @@ structure RcbSched where
   stores : List (Nat × Nat) → List (Nat × Nat)
 
 /-- A schedule only reorders the stores. -/
-def RcbSched.Valid (s : RcbSched) : Prop := ∀ ws : List (Nat × Nat), (s.stores ws).Perm ws
+def RcbSched.Valid (s : RcbSched) : Prop := ∀ ws : List (Nat × Nat), ws.Perm (s.stores ws)
 
 /-- The sequential schedule (what `Model/Rcb.lean` evaluates). -/
-def RcbSched.seq : RcbSched := ⟨.leaf, fun _ _ => .leaf, id⟩
+def RcbSched.seq : RcbSched := ⟨.leaf, fun _ => .leaf, fun _ _ => .leaf, id⟩
 
 /-- `Rcb.idsOfTree` with the stores performed in the schedule's order. -/
 def idsOfTreeS {ι : Type} (stores : List (Nat × Nat) → List (Nat × Nat)) (n : Nat) (t : Tree ι) :
@@ -141,16 +141,26 @@ def runBBT (s : RcbSched) (withinTol : Int → Int → Bool) (cfg : Cfg) (iter :
     | .fuel => .fuel
     | .ok t => .ok (idsOfTreeS s.stores plen t)
 
+/-- `BoundingBox::from_points` under a schedule: per coordinate the
+`fold_with((MAX, MIN), ..).reduce_with(..)` of `Par.parBBox` (`fmax`/`fmin` stand for
+`f64::MAX`/`f64::MIN`). -/
+def bboxT (trees : Nat → SplitTree) (fmax fmin : Int) (dim : Nat) (pts : List (List Int)) :
+    List Int × List Int :=
+  let mm := (List.range dim).map (fun c =>
+    (parBBox fmax fmin (trees c) (pts.map (fun p => p.getD c 0))).getD (0, 0))
+  (mm.map (·.1), mm.map (·.2))
+
 /-- `Rcb.run` under the schedule `s`. -/
-def runT (s : RcbSched) (withinTol : Int → Int → Bool) (cfg : Cfg) (iter : Nat)
+def runT (s : RcbSched) (fmax fmin : Int) (withinTol : Int → Int → Bool) (cfg : Cfg) (iter : Nat)
     (pts : List (List Int)) (ws : List Int) (plen : Nat) : Outcome :=
-  let bb := bbox cfg.dim pts
+  let bb := bboxT s.bbox fmax fmin cfg.dim pts
   runBBT s withinTol cfg iter pts ws plen bb.1 bb.2
 
 /-- `Rcb.runRib` under the schedule `s` (the frame `rotate` is a parameter, as in the model). -/
-def runRibT {β : Type} (s : RcbSched) (rotate : β → List Int) (withinTol : Int → Int → Bool)
-    (cfg : Cfg) (iter : Nat) (pts : List β) (ws : List Int) (plen : Nat) : Outcome :=
-  runT s withinTol cfg iter (pts.map rotate) ws plen
+def runRibT {β : Type} (s : RcbSched) (fmax fmin : Int) (rotate : β → List Int)
+    (withinTol : Int → Int → Bool) (cfg : Cfg) (iter : Nat) (pts : List β) (ws : List Int)
+    (plen : Nat) : Outcome :=
+  runT s fmax fmin withinTol cfg iter (pts.map rotate) ws plen
 
 /-! ## `parItems` -/
 
@@ -610,7 +620,7 @@ def idsRes {ι : Type} (stores : List (Nat × Nat) → List (Nat × Nat)) (n : N
   | .ok t => .ok (idsOfTreeS stores n t)
 
 theorem idsRes_of_rel {ι : Type} (st st' : List (Nat × Nat) → List (Nat × Nat))
-    (hst : ∀ ws : List (Nat × Nat), (st ws).Perm ws) (hst' : ∀ ws : List (Nat × Nat), (st' ws).Perm ws)
+    (hst : ∀ ws : List (Nat × Nat), ws.Perm (st ws)) (hst' : ∀ ws : List (Nat × Nat), ws.Perm (st' ws))
     (n : Nat) (ids : List Nat) (hnd : ids.Nodup) (r r' : Res (Tree ι)) (h : TreeRel ids r r') :
     idsRes st n r = idsRes st' n r' := by
   cases r with
@@ -623,10 +633,10 @@ theorem idsRes_of_rel {ι : Type} (st st' : List (Nat × Nat) → List (Nat × N
     | ok t' =>
       obtain ⟨h1, h2⟩ := h
       have hn : ((st t.assign).map (·.1)).Nodup := by
-        rw [((hst t.assign).map _).nodup_iff, assign_map_fst]
+        rw [← ((hst t.assign).map _).nodup_iff, assign_map_fst]
         exact h2.nodup_iff.2 hnd
       have : scatter n (st t.assign) = scatter n (st' t'.assign) :=
-        scatter_perm n ((hst _).trans (h1.trans (hst' _).symm)) hn
+        scatter_perm n ((hst _).symm.trans (h1.trans (hst' _))) hn
       simp only [idsRes, idsOfTreeS, this]
 
 /-! ## The sequential schedule is the model -/
@@ -752,128 +762,46 @@ theorem runBBT_seq (wt : Int → Int → Bool) (cfg : Cfg) (iter : Nat) (pts : L
   rw [runBBT_eq_idsRes, runBB_eq_idsRes]
   simp only [RcbSched.seq, recurseT_leaf]
 
-/-! # MultiJagged -/
+/-! ## The bounding box -/
 
-section mj
-open Coupe.MultiJagged
+theorem foldl_bbStep_eq (xs : List Int) (m : Int × Int) :
+    xs.foldl (fun (m : Int × Int) v =>
+      (if Coord.lt v m.1 then v else m.1, if Coord.lt m.2 v then v else m.2)) m = xs.foldl bbStep m := by
+  congr 1
+  funext m v
+  simp [bbStep, Coord.lt]
 
-/-- Everything rayon decides during one call of `multi_jagged`. -/
-structure MjSched where
-  /-- block lengths of the `fold_with` over a slab of the given length
-  (`compute_split_positions`; the model's `chunk` parameter) -/
-  chunk : Nat → List Nat
-  /-- the leaves (depth-first numbers) in the order their `fetch_add` takes effect -/
-  arrival : List Nat
-  /-- the order in which the leaves' stores take effect -/
-  stores : List (Nat × Nat) → List (Nat × Nat)
-
-def MjSched.Valid (s : MjSched) (numParts : Nat) : Prop :=
-  ChunkOk s.chunk ∧ s.arrival.Perm (List.range numParts) ∧ ∀ ws : List (Nat × Nat), ws.Perm (s.stores ws)
-
-/-- `multi_jagged.rs: multi_jagged` under the schedule `s`: the hierarchy of `MultiJagged.run`
-with the schedule's chunking, then the leaf writes of `Par.mjAssign` (`fetch_add` numbers in
-arrival order, stores in the schedule's order). -/
-def mjIdsT (s : MjSched) (root : Nat → Nat → Nat) (sort : (Nat → Int) → List Nat → List Nat)
-    (dim : Nat) (key : Nat → Nat → Int) (ws : List Nat) (n numParts maxIter : Nat) (p0 : List Nat) :
-    Option (List Nat) :=
-  (MultiJagged.run {} root sort s.chunk dim key ws n numParts maxIter).map
-    (fun h => Par.mjAssign p0 h.leaves s.arrival s.stores)
-
-theorem recurseList_congr (sort : (Nat → Int) → List Nat → List Nat) (c1 c2 : Nat → List Nat)
-    (dim : Nat) (key : Nat → Nat → Int) (ws : List Nat) (coord : Nat) :
-    ∀ (cs : List Scheme) (subs : List (List Nat)),
-      (∀ c ∈ cs, ∀ p ∈ subs, MultiJagged.recurse {} sort c1 dim key ws c coord p =
-        MultiJagged.recurse {} sort c2 dim key ws c coord p) →
-      recurseList {} sort c1 dim key ws cs coord subs = recurseList {} sort c2 dim key ws cs coord subs := by
-  intro cs
-  induction cs with
-  | nil => intro subs _; simp [recurseList]
-  | cons c cs ih =>
-    intro subs h
-    cases subs with
-    | nil => simp [recurseList]
+/-- With sentinels that bound the data, the parallel bounding box is the model's. -/
+theorem bboxT_eq (trees : Nat → SplitTree) (fmax fmin : Int) (dim : Nat) (pts : List (List Int))
+    (hne : pts ≠ [])
+    (hb : ∀ p ∈ pts, ∀ c, c < dim → fmin ≤ p.getD c 0 ∧ p.getD c 0 ≤ fmax) :
+    bboxT trees fmax fmin dim pts = bbox dim pts := by
+  unfold bboxT bbox
+  have : ∀ c ∈ List.range dim,
+      (parBBox fmax fmin (trees c) (pts.map (fun p => p.getD c 0))).getD (0, 0) =
+      (minMax (pts.map (fun p => p.getD c (Coord.zero : Int)))).getD (Coord.zero, Coord.zero) := by
+    intro c hc
+    have hc := List.mem_range.1 hc
+    rw [parBBox_schedule_free]
+    cases pts with
+    | nil => exact absurd rfl hne
     | cons p ps =>
-      simp only [recurseList]
-      rw [h c (by simp) p (by simp), ih ps (fun c' hc' p' hp' => h c' (by simp [hc']) p' (by simp [hp']))]
+      obtain ⟨h1, h2⟩ := hb p (by simp) c hc
+      simp only [List.map_cons, minMax, Option.getD_some, List.foldl_cons, Coord.zero]
+      rw [foldl_bbStep_eq]
+      congr 1
+      simp only [bbStep, Prod.mk.injEq]
+      constructor <;> split <;> omega
+  simp only [List.map_congr_left this]
 
-theorem splitManyAux_flatten {α} : ∀ (ps : List Nat) (rest : List α) (drained : Nat) (subs : List (List α)),
-    splitManyAux rest drained ps = some subs → subs.flatten = rest := by
-  intro ps
-  induction ps with
-  | nil => intro rest drained subs h; simp [splitManyAux] at h; subst h; simp
-  | cons p ps ih =>
-    intro rest drained subs h
-    simp only [splitManyAux] at h
-    split at h
-    · cases h
-    · split at h
-      · cases h
-      · split at h
-        · cases h
-        · next subs' hs =>
-          cases h
-          simp [ih _ _ _ hs]
-
-/-- The hierarchy does not depend on how rayon cuts the block scans (at any node, at any
-depth): every node's split positions are chunk free (`split_chunk_free`). -/
-theorem recurse_chunk_free {sort : (Nat → Int) → List Nat → List Nat} (hsort : SortOk sort)
-    {c1 c2 : Nat → List Nat} (h1 : ChunkOk c1) (h2 : ChunkOk c2)
-    (dim : Nat) (key : Nat → Nat → Int) (ws : List Nat) :
-    ∀ (s : Scheme) (coord : Nat) (perm : List Nat), (∀ i ∈ perm, i < ws.length) →
-      MultiJagged.recurse {} sort c1 dim key ws s coord perm =
-        MultiJagged.recurse {} sort c2 dim key ws s coord perm := by
-  intro s
-  induction s using Scheme.induct with
-  | h k mods den next ih =>
-    intro coord perm hp
-    cases k with
-    | zero => simp [MultiJagged.recurse]
-    | succ k =>
-      have hp' : ∀ i ∈ sort (key coord) perm, i < ws.length :=
-        fun i hi => hp i ((hsort.perm _ _).mem_iff.1 hi)
-      simp only [MultiJagged.recurse]
-      rw [split_chunk_free (c1 (sort (key coord) perm).length) (c2 (sort (key coord) perm).length)
-        ws _ mods den hp' (h1 _) (h2 _)]
-      cases splitPositions {} (c2 (sort (key coord) perm).length) ws (sort (key coord) perm) mods den with
-      | none => rfl
-      | some pos =>
-        simp only
-        cases hsm : splitMany (sort (key coord) perm) pos with
-        | none => rfl
-        | some subs =>
-          simp only
-          cases next with
-          | none => rfl
-          | some cs =>
-            simp only
-            congr 1
-            apply recurseList_congr
-            intro c hc p hpm
-            apply ih cs rfl c hc
-            intro i hi
-            have hfl := splitManyAux_flatten _ _ _ _ hsm
-            exact hp' i (by rw [← hfl]; exact List.mem_flatten.2 ⟨p, hpm, hi⟩)
-
-theorem run_chunk_free {sort : (Nat → Int) → List Nat → List Nat} (hsort : SortOk sort)
-    {c1 c2 : Nat → List Nat} (h1 : ChunkOk c1) (h2 : ChunkOk c2) (root : Nat → Nat → Nat)
-    (dim : Nat) (key : Nat → Nat → Int) (ws : List Nat) (n numParts maxIter : Nat) (hws : n ≤ ws.length) :
-    MultiJagged.run {} root sort c1 dim key ws n numParts maxIter =
-      MultiJagged.run {} root sort c2 dim key ws n numParts maxIter := by
-  unfold MultiJagged.run
-  cases scheme root numParts maxIter with
-  | none => rfl
-  | some s =>
-    simp only
-    exact recurse_chunk_free hsort h1 h2 dim key ws s 0 _
-      (fun i hi => by have := List.mem_range.1 hi; omega)
-
-/-- The sequential leaf writes of `Model/MultiJagged.lean` are the writes of `Par.mjAssign`
-performed in program order. -/
-theorem mjAssign_id_eq_assign (p0 : List Nat) (leaves : List (List Nat)) (arrival : List Nat) :
-    Par.mjAssign p0 leaves arrival id = MultiJagged.assign (fetchAddIds arrival) leaves p0 := by
-  simp only [Par.mjAssign, MultiJagged.assign, disjointWrites, labelWrites, enumerate, id,
-    List.foldl_flatMap, List.foldl_map, write]
-
-end mj
+theorem runBBT_empty (s : RcbSched) (wt : Int → Int → Bool) (cfg : Cfg) (iter : Nat)
+    (ws : List Int) (plen : Nat) (lo hi lo' hi' : List Int) :
+    runBBT s wt cfg iter [] ws plen lo hi = runBBT s wt cfg iter [] ws plen lo' hi' := by
+  unfold runBBT
+  split
+  · rfl
+  split
+  · rfl
+  simp
 
 end Coupe.ParAlgos
